@@ -340,3 +340,10 @@ func Goroutines() int { return 0 }
 
 // Blocked describes what the other live goroutines wait for.
 func Blocked() string { return "" }
+
+// WatchGlobals starts recording writes to package-level variables of packages
+// whose import path ends in pkgSuffix (symbolic executor only).
+func WatchGlobals(pkgSuffix string) {}
+
+// WatchedWrites lists the recorded writes ("variable in function; ...").
+func WatchedWrites() string { return "" }
